@@ -15,6 +15,7 @@ import (
 	"net/http"
 	"strconv"
 	"strings"
+	"verifharness/dbfix"
 
 	"github.com/ethereum/go-ethereum/common"
 
@@ -102,13 +103,32 @@ func runCase(env *vlib.Env, idx int, rep *vlib.Reporter) {
 	for i := 0; i < nq; i++ {
 		p := r.Bytes(32)
 		p[0] |= 1
-		queue = append(queue, refimpl.QueuedTx{Index: int64(i), Prefix: p, Sender: r.Bytes(20), GasLimit: gasChoices[r.Intn(len(gasChoices))]})
+		sender := r.Bytes(20)
+		if i > 0 && r.Chance(1, 5) {
+			// the same sender submits another transaction under the same prefix: same identity preimage
+			p, sender = queue[i-1].Prefix, queue[i-1].Sender
+			rep.Obs("queued_transactions_repeating_an_identity", 1)
+		}
+		queue = append(queue, refimpl.QueuedTx{Index: int64(i), Prefix: p, Sender: sender, GasLimit: gasChoices[r.Intn(len(gasChoices))]})
 	}
 	shape := fmt.Sprintf("q%d[", nq)
 	for _, tx := range queue {
 		shape += fmt.Sprintf("%d,", tx.GasLimit/1000)
 	}
 	shape += "]"
+	wBv := *w
+	wB := &wBv
+	wB.CfgIndex, wB.EonNo, wB.Activation = w.CfgIndex+1, w.EonNo+1, w.Activation+1000
+	var queueB []refimpl.QueuedTx
+	for i := 0; i < 3; i++ {
+		p := bytes.Repeat([]byte{9}, 32)
+		p[1] = byte(i)
+		queueB = append(queueB, refimpl.QueuedTx{Index: int64(i), Prefix: p, Sender: []byte{0, 0, 0, 0, 0, 0, 0, 0, 0, 0, 0, 0, 0, 0, 0, 0, 0, 0, 0, byte(i + 1)}, GasLimit: minGas})
+	}
+	switchAt := -1 // the operation before which the second keyper set takes over (-1: never)
+	if r.Chance(1, 2) {
+		switchAt = 3 + r.Intn(6)
+	}
 	ptr := refimpl.Pointer{}
 	switch r.Intn(5) {
 	case 0: // no row
@@ -138,12 +158,20 @@ func runCase(env *vlib.Env, idx int, rep *vlib.Reporter) {
 				return
 			}
 		}
-		// another keyper set's queue must not interfere
-		for i := 0; i < 3; i++ {
+		// a second keyper set (same members) that takes over at a later block, with a queue of its
+		// own: it must not interfere before, and after its activation the requests move to it
+		for _, tx := range queueB {
 			_, _ = q.InsertTransactionSubmittedEvent(ctx, gnosisdb.InsertTransactionSubmittedEventParams{
-				Index: int64(i), BlockNumber: 5, BlockHash: []byte{2}, LogIndex: int64(i), Eon: w.CfgIndex + 1, IdentityPrefix: bytes.Repeat([]byte{9}, 32),
-				Sender: shdb.EncodeAddress(common.BytesToAddress([]byte{byte(i + 1)})), GasLimit: minGas})
+				Index: tx.Index, BlockNumber: 5, BlockHash: []byte{2}, LogIndex: tx.Index, Eon: wB.CfgIndex, IdentityPrefix: tx.Prefix,
+				Sender: shdb.EncodeAddress(common.BytesToAddress(tx.Sender)), GasLimit: int64(tx.GasLimit)})
 		}
+		self := n.Index
+		if err := dbfix.InsertKeyperSet(ctx, n.Pool, wB.CfgIndex, wB.Activation, wB.Keypers.Addrs, int32(wB.T), true); err != nil {
+			rep.Inconclusive("second keyper set: " + err.Error())
+			return
+		}
+		_ = dbfix.InsertEon(ctx, n.Pool, wB.EonNo, 3, wB.Activation, wB.CfgIndex)
+		_ = dbfix.InsertDKGResult(ctx, n.Pool, wB.EonNo, wB.Eon.DKGResult(uint64(wB.EonNo), self))
 		if ptr.Exists {
 			if err := q.SetTxPointer(ctx, gnosisdb.SetTxPointerParams{Eon: w.CfgIndex, Age: sql.NullInt64{Int64: ptr.Age, Valid: ptr.AgeKnown}, Value: ptr.Value}); err != nil {
 				rep.Inconclusive(err.Error())
@@ -153,12 +181,14 @@ func runCase(env *vlib.Env, idx int, rep *vlib.Reporter) {
 	}
 	ptrs := []refimpl.Pointer{ptr, ptr}
 	keyperSet := w.Keypers.KeyperSet(w.CfgIndex, w.Activation, int32(w.T))
+	// everything below refers to the keyper set in charge: cw / curQueue / curNq / ptrs / keyperSet
+	cw, curQueue, curNq := w, queue, int64(nq)
 	slot := uint64([]uint64{0, 1, 1 << 32, 1<<63 - 20}[r.Intn(4)])
 	triggers := 0
 	var lastIDs [2][][]byte
 	var lastStart [2]int64
 	checkPointer := func(i int, what string) bool {
-		row, err := gnosisdb.New(nodes[i].Pool).GetTxPointer(ctx, w.CfgIndex)
+		row, err := gnosisdb.New(nodes[i].Pool).GetTxPointer(ctx, cw.CfgIndex)
 		p := ptrs[i]
 		if !p.Exists {
 			if err == nil {
@@ -180,6 +210,21 @@ func runCase(env *vlib.Env, idx int, rep *vlib.Reporter) {
 	}
 	ops := ""
 	for step := 0; step < 12; step++ {
+		if step == switchAt {
+			// the second keyper set is now in charge: the sequencer sync position passes its activation block
+			ops += "|B|"
+			cw, curQueue, curNq = wB, queueB, int64(len(queueB))
+			ptrs = []refimpl.Pointer{{}, {}}
+			keyperSet = wB.Keypers.KeyperSet(wB.CfgIndex, wB.Activation, int32(wB.T))
+			lastIDs = [2][][]byte{}
+			for _, n := range nodes {
+				if err := gnosisdb.New(n.Pool).SetTransactionSubmittedEventsSyncedUntil(ctx, gnosisdb.SetTransactionSubmittedEventsSyncedUntilParams{BlockHash: []byte{3}, BlockNumber: wB.Activation, Slot: 0}); err != nil {
+					rep.Inconclusive("sync position: " + err.Error())
+					return
+				}
+			}
+			rep.Obs("keyper_set_switches_during_a_case", 1)
+		}
 		op := r.Intn(10)
 		switch {
 		case op < 4: // slot trigger on both keypers
@@ -196,11 +241,11 @@ func runCase(env *vlib.Env, idx int, rep *vlib.Reporter) {
 					ptrs[i].Age++
 				}
 				wasOutdated := ptrs[i].Exists && (!ptrs[i].AgeKnown || ptrs[i].Age > maxAge)
-				start := ptrs[i].Start(maxAge, int64(nq))
+				start := ptrs[i].Start(maxAge, curNq)
 				if wasOutdated {
 					rep.Obs("outdated_pointer_starts", 1)
 				}
-				want := refimpl.GnosisSelect(queue, start, slot, gasLimit)
+				want := refimpl.GnosisSelect(curQueue, start, slot, gasLimit)
 				var terr error
 				desc := fmt.Sprintf("%s ops=%s slot=%d keyper=%d", shape, ops, slot, i)
 				if rep.Guard("panic:trigger", desc, func() {
@@ -208,7 +253,7 @@ func runCase(env *vlib.Env, idx int, rep *vlib.Reporter) {
 						terr = n.GnosisKeyper.VerifMaybeTriggerDecryption(ctx, slot)
 						rep.Obs("triggers_via_real_slot_flow", 1)
 					} else {
-						terr = n.GnosisKeyper.VerifTriggerDecryption(ctx, slot, w.Activation+1, keyperSet)
+						terr = n.GnosisKeyper.VerifTriggerDecryption(ctx, slot, cw.Activation+1, keyperSet)
 					}
 				}) {
 					return
@@ -228,21 +273,21 @@ func runCase(env *vlib.Env, idx int, rep *vlib.Reporter) {
 					contents[i] = append(append(contents[i], byte(len(id))), id...)
 				}
 				if !equalIDs(got, want) {
-					rep.Violationf("selection", map[string]any{"case": desc, "start": start, "got": renderIDs(got, queue, slot), "want": renderIDs(want, queue, slot)},
-						"requested identities differ from the reference selection (start %d): got %s, want %s", start, renderIDs(got, queue, slot), renderIDs(want, queue, slot))
+					rep.Violationf("selection", map[string]any{"case": desc, "start": start, "got": renderIDs(got, curQueue, slot), "want": renderIDs(want, curQueue, slot)},
+						"requested identities differ from the reference selection (start %d): got %s, want %s", start, renderIDs(got, curQueue, slot), renderIDs(want, curQueue, slot))
 					return
 				}
 				if !bytes.Equal(got[0], refimpl.SlotIdentity(slot)) {
 					rep.Violationf("slot-identity-not-first", map[string]any{"case": desc}, "the slot identity is not the first identity")
 					return
 				}
-				cur, err := gnosisdb.New(n.Pool).GetCurrentDecryptionTrigger(ctx, w.CfgIndex)
+				cur, err := gnosisdb.New(n.Pool).GetCurrentDecryptionTrigger(ctx, cw.CfgIndex)
 				if err != nil || cur.Slot != int64(slot) || cur.TxPointer != start {
 					rep.Violationf("current-trigger-row", map[string]any{"case": desc, "row": fmt.Sprintf("%+v", cur)}, "current_decryption_trigger does not record slot %d / pointer %d", slot, start)
 					return
 				}
 				lastIDs[i], lastStart[i] = got, start
-				if len(want)-1 < countFrom(queue, start) {
+				if len(want)-1 < countFrom(curQueue, start) {
 					rep.Obs("triggers_with_gas_cut", 1)
 				}
 				rep.Obs("triggers", 1)
@@ -258,10 +303,10 @@ func runCase(env *vlib.Env, idx int, rep *vlib.Reporter) {
 		case op < 6 && lastIDs[0] != nil: // keys message received through the handler
 			ops += "R"
 			for i, n := range nodes {
-				m := w.KeysMsg(gossipnet.Gnosis, lastIDs[i], gossipnet.FirstSigners(w.T))
+				m := cw.KeysMsg(gossipnet.Gnosis, lastIDs[i], gossipnet.FirstSigners(cw.T))
 				ex := m.Extra.(*p2pmsg.DecryptionKeys_Gnosis).Gnosis
 				ex.Slot, ex.TxPointer = slot, uint64(lastStart[i])
-				w.SignKeys(gossipnet.Gnosis, m, gossipnet.FirstSigners(w.T), slot, uint64(lastStart[i]))
+				cw.SignKeys(gossipnet.Gnosis, m, gossipnet.FirstSigners(cw.T), slot, uint64(lastStart[i]))
 				d := n.Deliver(ctx, kprtopics.DecryptionKeys, gossipnet.MustMarshal(m))
 				if !d.Handled || d.HandleErr != nil {
 					rep.Violationf("keys-message-not-handled", map[string]any{"state": shape, "ops": ops, "result": int(d.Result), "err": fmt.Sprint(d.HandleErr)}, "a correctly signed keys message was not handled (result %d, %v)", d.Result, d.HandleErr)
@@ -276,8 +321,8 @@ func runCase(env *vlib.Env, idx int, rep *vlib.Reporter) {
 		case op < 8 && lastIDs[0] != nil: // keys message produced by the keyper itself (middleware)
 			ops += "S"
 			for i, n := range nodes {
-				m := w.KeysMsg(gossipnet.Gnosis, lastIDs[i], gossipnet.FirstSigners(w.T))
-				w.SignKeys(gossipnet.Gnosis, m, gossipnet.FirstSigners(w.T), slot, uint64(lastStart[i]))
+				m := cw.KeysMsg(gossipnet.Gnosis, lastIDs[i], gossipnet.FirstSigners(cw.T))
+				cw.SignKeys(gossipnet.Gnosis, m, gossipnet.FirstSigners(cw.T), slot, uint64(lastStart[i]))
 				if err := n.Sender.SendMessage(ctx, m); err != nil {
 					rep.Violationf("middleware-send-error", map[string]any{"state": shape, "ops": ops}, "sending a keys message through the middleware failed: %v", err)
 					return
@@ -299,18 +344,18 @@ func runCase(env *vlib.Env, idx int, rep *vlib.Reporter) {
 			for i, n := range nodes {
 				var wire []gossipnet.Sent
 				others := []int{}
-				for k := 0; k < w.N; k++ {
+				for k := 0; k < cw.N; k++ {
 					if k != n.Index {
 						others = append(others, k)
 					}
 				}
 				for _, k := range others[:nsig] {
-					sm := w.SharesMsg(gossipnet.Gnosis, k, lastIDs[i])
-					w.SignShares(gossipnet.Gnosis, sm, w.Keypers.Keys[k], slot, uint64(lastStart[i]))
+					sm := cw.SharesMsg(gossipnet.Gnosis, k, lastIDs[i])
+					cw.SignShares(gossipnet.Gnosis, sm, cw.Keypers.Keys[k], slot, uint64(lastStart[i]))
 					d := n.Deliver(ctx, kprtopics.DecryptionKeyShares, gossipnet.MustMarshal(sm))
 					wire = append(wire, d.Out...)
 				}
-				km := w.KeysMsg(gossipnet.Gnosis, lastIDs[i], nil)
+				km := cw.KeysMsg(gossipnet.Gnosis, lastIDs[i], nil)
 				km.Extra = nil
 				if err := n.Sender.SendMessage(ctx, km); err != nil {
 					rep.Violationf("middleware-send-error", map[string]any{"state": shape, "ops": ops}, "sending a keys message through the middleware failed: %v", err)
@@ -321,13 +366,13 @@ func runCase(env *vlib.Env, idx int, rep *vlib.Reporter) {
 				snap := n.DBNode.DB.Snapshot()
 				var cur map[string]any
 				for _, row := range snap.Rows("current_decryption_trigger") {
-					if row["eon"].(int64) == w.CfgIndex {
+					if row["eon"].(int64) == cw.CfgIndex {
 						cur = row
 					}
 				}
 				stored := 0
 				for _, row := range snap.Rows("slot_decryption_signatures") {
-					if cur != nil && row["eon"].(int64) == w.CfgIndex && row["slot"] == cur["slot"] && row["tx_pointer"] == cur["tx_pointer"] && bytes.Equal(row["identities_hash"].([]byte), cur["identities_hash"].([]byte)) {
+					if cur != nil && row["eon"].(int64) == cw.CfgIndex && row["slot"] == cur["slot"] && row["tx_pointer"] == cur["tx_pointer"] && bytes.Equal(row["identities_hash"].([]byte), cur["identities_hash"].([]byte)) {
 						stored++
 					}
 				}
@@ -339,17 +384,17 @@ func runCase(env *vlib.Env, idx int, rep *vlib.Reporter) {
 					}
 					sent++
 					ex, _ := k.Extra.(*p2pmsg.DecryptionKeys_Gnosis)
-					if ex == nil || ex.Gnosis.Slot != slot || ex.Gnosis.TxPointer != uint64(lastStart[i]) || len(ex.Gnosis.Signatures) < w.T {
+					if ex == nil || ex.Gnosis.Slot != slot || ex.Gnosis.TxPointer != uint64(lastStart[i]) || len(ex.Gnosis.Signatures) < cw.T {
 						rep.Violationf("self-keys-message-extra", map[string]any{"state": shape, "ops": ops}, "a self-produced keys message left the middleware without the current slot/pointer and a threshold of signatures")
 						return
 					}
 				}
 				det := map[string]any{"state": shape, "ops": ops, "keyper": i, "signatures_stored": stored, "keys_messages_sent": sent}
-				if stored < w.T && sent > 0 {
+				if stored < cw.T && sent > 0 {
 					rep.Violationf("self-keys-message-sent-below-threshold", det, "a keys message was sent although only %d signatures are stored", stored)
 					return
 				}
-				if stored >= w.T && sent == 0 {
+				if stored >= cw.T && sent == 0 {
 					rep.Violationf("self-keys-message-dropped-at-threshold", det, "%d signatures are stored but the keys message was dropped", stored)
 					return
 				}
@@ -379,7 +424,7 @@ func runCase(env *vlib.Env, idx int, rep *vlib.Reporter) {
 			k := 1 + r.Intn(maxAge+1)
 			for i, n := range nodes {
 				for j := 0; j < k; j++ {
-					_, _ = gnosisdb.New(n.Pool).IncrementTxPointerAge(ctx, w.CfgIndex)
+					_, _ = gnosisdb.New(n.Pool).IncrementTxPointerAge(ctx, cw.CfgIndex)
 				}
 				if ptrs[i].Exists && ptrs[i].AgeKnown {
 					ptrs[i].Age += int64(k)
